@@ -23,6 +23,11 @@ pub enum JOp {
     Clone,
     /// `dst.clone_from(&src)` into an existing instance; payload = source index (C16)
     CloneFrom(usize),
+    /// the documented start-up idiom `if let Ok(r) = test_timer() { set_rounds(r) }`
+    TestTimer,
+    /// the instance is replaced by `fresh.clone_from(&self)` where `fresh` is a
+    /// new instance on the same timer that has a half pending (C12)
+    ReplaceViaCloneFrom,
 }
 impl JOp {
     pub fn show(&self) -> String {
@@ -34,6 +39,8 @@ impl JOp {
             JOp::Rounds(r) => format!("set_rounds({})", r),
             JOp::Clone => "clone".into(),
             JOp::CloneFrom(s) => format!("clone_from(#{})", s),
+            JOp::TestTimer => "test_timer".into(),
+            JOp::ReplaceViaCloneFrom => "replace_via_clone_from".into(),
         }
     }
 }
@@ -72,7 +79,17 @@ fn real_apply<F: Fn() -> u64 + Send + Sync>(g: &mut JitterRng<F>, op: &JOp) -> J
             g.set_rounds(*r);
             JOut::Unit
         }
-        JOp::Clone | JOp::CloneFrom(_) => JOut::Unit,
+        JOp::Clone | JOp::CloneFrom(_) | JOp::ReplaceViaCloneFrom => JOut::Unit,
+        JOp::TestTimer => {
+            // result: the rounds adopted (0 = test failed, rounds unchanged)
+            match g.test_timer() {
+                Ok(rr) if rr > 0 => {
+                    g.set_rounds(rr);
+                    JOut::I64(rr as i64)
+                }
+                _ => JOut::I64(0),
+            }
+        }
     }
 }
 
@@ -86,7 +103,11 @@ fn model_apply(m: &mut Jitter, op: &JOp, cur: &mut ScriptCursor, st: &mut Collec
             m.rounds = *r;
             JOut::Unit
         }
-        JOp::Clone | JOp::CloneFrom(_) => JOut::Unit,
+        JOp::Clone | JOp::CloneFrom(_) | JOp::ReplaceViaCloneFrom => JOut::Unit,
+        JOp::TestTimer => {
+            m.test_timer_effect(cur);
+            JOut::I64(-1) // verdict not modelled: the caller adopts the real one
+        }
     }
 }
 
@@ -110,6 +131,7 @@ fn gen_jop(p: &mut Prng, allow_stats: bool) -> JOp {
         11..=14 => JOp::Fill(p.below(18) as usize),
         15 | 16 if allow_stats => JOp::Stats(p.chance(1, 2)),
         17 => JOp::Rounds(*p.pick(&[1u8, 1, 2, 3, 4, 7, 16, 64, 255])),
+        18 if allow_stats => JOp::ReplaceViaCloneFrom,
         _ => JOp::U32,
     }
 }
@@ -144,8 +166,30 @@ fn c12_run_script(readings: Vec<u64>, tail: u64, rounds: u8, ops: &[JOp], class:
     model.rounds = rounds;
     let mut st = CollectStats::default();
     for (i, op) in ops.iter().enumerate() {
-        let want = model_apply(&mut model, op, &mut cur, &mut st);
+        if *op == JOp::ReplaceViaCloneFrom {
+            // Clone::clone_from into an instance that itself holds a pending half:
+            // afterwards the destination is a clone of `real` (no half pending)
+            let mut fresh = JitterRng::new_with_timer(timer.closure());
+            fresh.set_rounds(1);
+            let _ = fresh.next_u32();
+            let mut fm = Jitter::new();
+            fm.rounds = 1;
+            let _ = fm.next_u32(&mut cur, &mut st);
+            fresh.clone_from(&real);
+            real = fresh;
+            model = model.clone_model();
+            r.cov("op:replace_via_clone_from");
+            continue;
+        }
+        let mut want = model_apply(&mut model, op, &mut cur, &mut st);
         let got = real_apply(&mut real, op);
+        if *op == JOp::TestTimer {
+            // adopt the real verdict (C13 judges it); values, pool and readings stay checked
+            if let JOut::I64(rr) = got {
+                if rr > 0 { model.rounds = rr as u8; }
+            }
+            want = got.clone();
+        }
         r.eval();
         let kind = op.show().split('(').next().unwrap().to_string();
         if got != want {
@@ -193,16 +237,30 @@ fn c12_case(sub: &str, id: u64, explicit: Option<&Value>, r: &mut Report) {
         return;
     }
     let mut p = Prng::new(id);
-    let class = p.below(SCRIPT_CLASSES.len() as u64) as usize;
+    // the very long stall class is expensive: about 1 case in 400
+    let class = if p.chance(1, 400) { 10 } else { let c = p.below(11) as usize; if c == 10 { 11 } else { c } };
     let n = p.range(32, 700) as usize;
     let readings = gen_script(&mut p, class, n);
-    let rounds = *p.pick(&[1u8, 1, 1, 2, 2, 3, 5, 8, 64, 255]);
+    let rounds = if class == 10 { *p.pick(&[1u8, 2, 3]) } else { *p.pick(&[1u8, 1, 1, 2, 2, 3, 5, 8, 64, 255]) };
     let n_ops = if rounds >= 64 { p.range(1, 4) } else { p.range(2, 14) } as usize;
-    let ops: Vec<JOp> = (0..n_ops).map(|_| {
+    let mut ops: Vec<JOp> = (0..n_ops).map(|_| {
         let o = gen_jop(&mut p, true);
         if rounds >= 64 { if let JOp::Fill(k) = o { return JOp::Fill(k % 9); } }
         o
     }).collect();
+    // sometimes the documented start-up idiom comes first (1601 more readings)
+    let mut readings = readings;
+    if class != 10 && rounds < 64 && p.chance(1, 6) {
+        let at = p.below(ops.len() as u64 + 1) as usize;
+        ops.insert(at, JOp::TestTimer);
+        if p.chance(2, 3) {
+            // a script on which the test passes, so that the adopted rounds matter
+            let mut pre = gen_script(&mut p, 0, 1700);
+            let base = *pre.last().unwrap();
+            pre.extend(readings.iter().map(|v| v.wrapping_add(base)));
+            readings = pre;
+        }
+    }
     c12_run_script(readings, p.u64(), rounds, &ops, SCRIPT_CLASSES[class], sub, id, r);
 }
 
@@ -217,13 +275,13 @@ pub fn run_c12(ctx: &Ctx, only: Option<&Only>) -> Report {
     let secs = if ctx.tier_thorough { ctx.budget_s } else { 0.0 };
     let mut total = drive(ctx, "script", 24_000, secs, |id, r| c12_case("script", id, None, r));
     total.floor("stuck_measurements", 100);
-    for op in ["u32", "u64", "fill", "timer_stats", "set_rounds"] {
+    for op in ["u32", "u64", "fill", "timer_stats", "set_rounds", "test_timer", "replace_via_clone_from"] {
         total.floor(&format!("op:{}", op), 100);
     }
     total.floor("rounds:1", 10);
     total.floor("rounds:255", 10);
     for c in SCRIPT_CLASSES {
-        total.floor(&format!("script_class:{}", c), 10);
+        total.floor(&format!("script_class:{}", c), if c == "long_stall" { 4 } else { 10 });
     }
     total
 }
@@ -873,6 +931,64 @@ fn c15_case(sub: &str, id: u64, ctx: &Ctx, r: &mut Report) {
             r.cov("collect_pairs");
             r.distinct(hkey(&[&"collect_pairs", &id]));
         }
+        // "entropy already collected is never lost by further collection": the pool
+        // after ANY operation sequence (next_u32 / next_u64 / fill_bytes /
+        // timer_stats / test_timer, stalls included) is a one-to-one function of
+        // the pool before it. Affine map read off 64 basis pools, rank, and a
+        // colliding pair re-run on the real code if the rank is deficient.
+        "op_sequences" => {
+            let class = { let c = p.below(11) as usize; if c == 10 { 11 } else { c } };
+            let rounds = *p.pick(&[1u8, 1, 2, 3]);
+            let n_ops = p.range(1, 6) as usize;
+            let ops: Vec<JOp> = (0..n_ops).map(|_| match p.below(9) {
+                0..=2 => JOp::U32,
+                3..=4 => JOp::U64,
+                5 => JOp::Fill(p.below(14) as usize),
+                6 => JOp::Stats(p.chance(1, 2)),
+                7 => JOp::TestTimer,
+                _ => JOp::U32,
+            }).collect();
+            let need = 400 + ops.iter().map(|o| if *o == JOp::TestTimer { 1700 } else { 60 }).sum::<usize>();
+            let readings = gen_script(&mut p, class, need);
+            let tail = p.u64();
+            let run = |d: u64| -> u64 {
+                let timer = ScriptedTimer::new(readings.clone(), tail);
+                let mut g = JitterRng::new_with_timer(timer.closure());
+                g.set_rounds(rounds);
+                g.verif_set_pool(d);
+                for op in &ops {
+                    let _ = real_apply(&mut g, op);
+                }
+                g.verif_pool()
+            };
+            let mut f = |d: u64| run(d);
+            let (m, c) = affine_matrix(&mut f);
+            // affinity on random pools (otherwise the rank says nothing)
+            for _ in 0..24 {
+                let d = c15_structured_pool(&mut p);
+                r.eval();
+                if run(d) != m.apply(&bv(d)).w[0] ^ c {
+                    r.data.insert("non_affine_witness".into(), json!({"pool": hx64(d), "ops": show_jops(&ops)}));
+                    r.inconclusive("pool after an operation sequence is not an affine function of the pool before it on an observed execution (rank oracle not applicable)".into());
+                    return;
+                }
+            }
+            let rank = m.rank();
+            r.eval();
+            if rank < 64 {
+                let kv = kernel_vector(&m).unwrap_or(0);
+                let d = p.u64();
+                let (x, y) = (run(d), run(d ^ kv));
+                r.violation("JitterRng:operation_sequence_merges_pools".into(), sub, id, json!({
+                    "ops": show_jops(&ops), "rounds": rounds, "script_class": SCRIPT_CLASSES[class], "rank": rank,
+                    "pool_a": hx64(d), "pool_b": hx64(d ^ kv), "pool_after_a": hx64(x), "pool_after_b": hx64(y),
+                    "collision_confirmed_on_real_code": x == y && kv != 0}));
+                return;
+            }
+            r.cov("op_sequences_rank64");
+            r.cov(&format!("op_sequences_class:{}", SCRIPT_CLASSES[class]));
+            r.distinct(hkey(&[&"op_sequences", &id, &show_jops(&ops)]));
+        }
         _ => r.inconclusive(format!("unknown sub-monitor {} for C15", sub)),
     }
 }
@@ -888,8 +1004,10 @@ pub fn run_c15(ctx: &Ctx, only: Option<&Only>) -> Report {
     let mut total = drive(ctx, "rank", 16, 0.0, |id, r| c15_case("rank", id, ctx, r));
     total.merge(drive(ctx, "affinity", 128, secs * 0.3, |id, r| c15_case("affinity", id, ctx, r)));
     total.merge(drive(ctx, "collide", 64, secs * 0.5, |id, r| c15_case("collide", id, ctx, r)));
-    total.merge(drive(ctx, "collect_pairs", 2_000, secs * 0.2, |id, r| c15_case("collect_pairs", id, ctx, r)));
+    total.merge(drive(ctx, "collect_pairs", 2_000, secs * 0.1, |id, r| c15_case("collect_pairs", id, ctx, r)));
+    total.merge(drive(ctx, "op_sequences", 1_200, secs * 0.1, |id, r| c15_case("op_sequences", id, ctx, r)));
     total.floor("rank_all_full", 1);
+    total.floor("op_sequences_rank64", 500);
     total.floor("affinity_observations", 100_000);
     for m in ["fold_pool", "fold_time", "stir"] {
         total.floor(&format!("collide_inputs:{}", m), 1 << 16);
@@ -929,13 +1047,82 @@ fn c16_case(sub: &str, id: u64, r: &mut Report) {
 
     for i in 0..n_ops {
         let k = p.below(reals.len() as u64) as usize;
-        let op = match p.below(12) {
+        let roll = p.below(28);
+        let op = match roll % 14 {
             0..=4 => JOp::U32,
             5..=6 => JOp::U64,
             7..=9 => JOp::Fill(p.below(18) as usize),
             10 => if reals.len() < 3 { JOp::Clone } else { JOp::U32 },
-            _ => if reals.len() >= 2 { JOp::CloneFrom((k + 1 + p.below(reals.len() as u64 - 1) as usize) % reals.len()) } else { JOp::Clone },
+            11 => if reals.len() >= 2 { JOp::CloneFrom((k + 1 + p.below(reals.len() as u64 - 1) as usize) % reals.len()) } else { JOp::Clone },
+            12 => if rounds < 64 && roll < 14 { JOp::TestTimer } else { JOp::U32 },
+            _ => JOp::U32,
         };
+        // fault injection: the timer panics at a chosen reading inside this call;
+        // the caller recovers (catch_unwind) and keeps using the generator
+        let inject = roll == 27 || roll == 13;
+        if op == JOp::TestTimer {
+            log.push(format!("#{}:test_timer", k));
+            let got = real_apply(&mut reals[k], &op);
+            models[k].test_timer_effect(&mut cur);
+            if let JOut::I64(rr) = got { if rr > 0 { models[k].rounds = rr as u8; r.cov("test_timer_passed"); } }
+            r.eval();
+            if timer.calls() != cur.pos || reals[k].verif_pool() != models[k].pool {
+                r.violation("JitterRng:test_timer:readings_or_pool".into(), sub, id, json!({"history": log.join(" "),
+                    "expected_total_reads": cur.pos, "observed_total_reads": timer.calls(),
+                    "expected_pool": hx64(models[k].pool), "observed_pool": hx64(reals[k].verif_pool())}));
+                return;
+            }
+            // test_timer is not an output call: a pending half stays pending, but the
+            // register it lives in was folded into (same modelling note as timer_stats)
+            if pending[k].is_some() { owed[k] = Some(reals[k].verif_pool()); }
+            r.cov("op:test_timer");
+            continue;
+        }
+        if inject && matches!(op, JOp::U32 | JOp::U64 | JOp::Fill(_)) {
+            let at = p.below(3 * (1 + models[k].rounds as u64).min(12)) as usize;
+            log.push(format!("#{}:{}!fault@+{}", k, op.show(), at));
+            timer.inject_fault_after(at);
+            let res = guarded(|| real_apply(&mut reals[k], &op));
+            let faulted = !timer.fault_pending();
+            timer.clear_fault();
+            match res {
+                Err(c) if c.message.contains(TIMER_FAULT_MSG) => {
+                    // the aborted call handed nothing out: nothing is pending afterwards,
+                    // the next output must come from a fresh collection. Re-synchronise the
+                    // model with the (partially mixed) pool through the hook.
+                    models[k].pool = reals[k].verif_pool();
+                    models[k].half_pending = false;
+                    pending[k] = None;
+                    owed[k] = None;
+                    cur.pos = timer.calls();
+                    r.cov("timer_fault_recovered");
+                    continue;
+                }
+                Err(c) => {
+                    r.violation(format!("JitterRng:{}", c.signature()), sub, id, json!({"history": log.join(" ")}));
+                    return;
+                }
+                Ok(_) if !faulted => {
+                    // the call never reached the faulty reading (e.g. it served a pending
+                    // half or needed no collection): replay it on the model as a normal op
+                    log.pop();
+                    // fall through is not possible after the call was made: account for it
+                    let want = model_apply(&mut models[k], &op, &mut cur, &mut st);
+                    let _ = want;
+                    // conservative resync of the checker's bookkeeping
+                    models[k].pool = reals[k].verif_pool();
+                    models[k].half_pending = reals[k].verif_half_pending();
+                    pending[k] = if models[k].half_pending { Some(collections) } else { None };
+                    owed[k] = if models[k].half_pending { Some(reals[k].verif_pool()) } else { None };
+                    cur.pos = timer.calls();
+                    continue;
+                }
+                Ok(_) => {
+                    r.inconclusive("fault injection: timer reported a fault but the call returned normally".into());
+                    return;
+                }
+            }
+        }
         log.push(format!("#{}:{}", k, op.show()));
         if op == JOp::Clone {
             let c = reals[k].clone();
@@ -1097,7 +1284,7 @@ pub fn run_c16(ctx: &Ctx, only: Option<&Only>) -> Report {
     }
     let secs = if ctx.tier_thorough { ctx.budget_s } else { 0.0 };
     let mut total = drive(ctx, "ledger", 24_000, secs, |id, r| c16_case("ledger", id, r));
-    for k in ["op:u32", "op:u64", "op:fill", "op:clone", "op:clone_from", "clone_from_into_instance_with_pending_half", "clone_from_source_with_pending_half",
+    for k in ["op:test_timer", "test_timer_passed", "timer_fault_recovered", "op:u32", "op:u64", "op:fill", "op:clone", "op:clone_from", "clone_from_into_instance_with_pending_half", "clone_from_source_with_pending_half",
               "pending_half_served", "clone_while_half_pending", "fresh_collection_on_clone"] {
         total.floor(k, 100);
     }
